@@ -17,6 +17,7 @@ Blocks are not nested (their bodies hold only text / variable forms / includes).
 """
 from __future__ import annotations
 
+import copy
 import re
 
 SPECIALS = ("item", "index", "first", "last")
@@ -387,14 +388,14 @@ def gen_nodes(rng, names, inc_targets, lo, hi, blocks=True):
     return nodes
 
 
-def gen_templates(rng, max_main=8, specials_as_outer=True):
+def gen_templates(rng, max_main=8, specials_as_outer=True, p_inc=0.6):
     """main template + up to 3 levels of acyclic includes. Returns (templates, names)."""
     names = rng.sample(OUTER, rng.randint(3, 7))
     if specials_as_outer and rng.random() < 0.12:
         names.append(rng.choice(["item", "index"]))
     templates = {}
     levels = {1: [], 2: [], 3: []}
-    want_inc = rng.random() < 0.6
+    want_inc = rng.random() < p_inc
     if want_inc:
         deepest = rng.choice([1, 1, 2, 2, 3, 3])
         for lvl in range(deepest, 0, -1):
@@ -476,3 +477,78 @@ def gen_context(rng, templates, p_bound):
         mixed = rng.random() < 0.15
         ctx[n] = [gen_item(rng, dicty if not mixed else rng.random() < 0.5) for _ in range(rng.choice([0, 1, 2, 2, 3, 4]))]
     return ctx
+
+
+# ----------------------------------------------------------------------------- sessions on one long-lived renderer
+def include_depth(templates, name="__main__", _seen=()):
+    """Static nesting depth of registered includes below `name` (0 = no registered include)."""
+    best = 0
+
+    def walk(nodes):
+        nonlocal best
+        for nd in nodes:
+            if nd[0] == "inc" and nd[1] in templates and nd[1] != "__main__":
+                if nd[1] in _seen:
+                    best = 99          # cyclic: outside the quantifier
+                else:
+                    best = max(best, 1 + include_depth(templates, nd[1], _seen + (name,)))
+            elif nd[0] == "if":
+                walk(nd[2])
+                walk(nd[3] or [])
+            elif nd[0] == "each":
+                walk(nd[2])
+    walk(templates[name])
+    return best
+
+
+def include_levels(templates):
+    """{level: [names]} of the generator's include templates (t<level><a|b>)."""
+    lv = {}
+    for nm in templates:
+        if len(nm) == 3 and nm[0] == "t" and nm[1] in "123":
+            lv.setdefault(int(nm[1]), []).append(nm)
+    return lv
+
+
+def revalue(rng, templates, old, one_only=False):
+    """A context with exactly the key set of `old` and freshly drawn values (all of them, or a single one)."""
+    fresh = gen_context(rng, templates, 1.0)
+    keys = list(old)
+    pick = rng.choice(keys) if (one_only and keys) else None
+    new = {}
+    for k in keys:
+        if pick is not None and k != pick:
+            new[k] = copy.deepcopy(old[k])
+        elif k in fresh:
+            new[k] = fresh[k]
+        elif k in EACHVARS:
+            dicty = rng.random() < 0.5
+            new[k] = [gen_item(rng, dicty) for _ in range(rng.choice([0, 1, 2, 3]))]
+        else:
+            new[k] = gen_scalar(rng)
+    return new
+
+
+def mutate_list_in_place(rng, bind):
+    """Change one list value of `bind` IN PLACE (same list object, same dict). Returns the key or None."""
+    keys = [k for k in sorted(bind) if isinstance(bind[k], list)]
+    if not keys:
+        return None
+    k = rng.choice(keys)
+    lst = bind[k]
+    dicty = any(isinstance(i, dict) for i in lst) or (k in EACHVARS and not lst and rng.random() < 0.5)
+    new_item = (lambda: gen_item(rng, dicty)) if k in EACHVARS else (lambda: gen_scalar(rng))
+    op = rng.choice(["append", "replace", "pop", "reverse", "insert0"])
+    if not lst or op == "append":
+        lst.append(new_item())
+    elif op == "replace":
+        lst[rng.randrange(len(lst))] = new_item()
+    elif op == "pop":
+        lst.pop(rng.randrange(len(lst)))
+    elif op == "insert0":
+        lst.insert(0, new_item())
+    else:
+        lst.reverse()
+        if len(lst) < 2 or lst == lst[::-1]:
+            lst.append(new_item())
+    return k
